@@ -541,7 +541,9 @@ func bigCases(r *vm.Rand) []*rcase {
 		var b bytes.Buffer
 		p.Pack(&b, fc.th)
 		in := append(b.Bytes(), 0x05, 0x01, 0x02) // something follows the frame
-		sum := func(q pk.Packet) string { return fmt.Sprintf("%d: %d bytes, fnv %016x", q.ID, len(q.Data), vm.Hash64(q.Data)) }
+		sum := func(q pk.Packet) string {
+			return fmt.Sprintf("%d: %d bytes, fnv %016x", q.ID, len(q.Data), vm.Hash64(q.Data))
+		}
 		rcs = append(rcs,
 			&rcase{op: rop{name: fmt.Sprintf("Packet.UnPack(%d bytes, threshold=%d)", fc.n, fc.th), run: func(rd io.Reader) (string, int64, error) {
 				var q pk.Packet
@@ -560,7 +562,134 @@ func bigCases(r *vm.Rand) []*rcase {
 	return rcs
 }
 
+// endsEarly: the failure clause for items that announce more than any generated item holds. A stream that ends
+// (or fails) while an announced array, list or string is still outstanding is an early end like any other, however
+// large the announcement - 2^28..2^31-1 elements cannot be produced by cutting a generated document short. Every NBT
+// target and the packet fields that carry a length get the announcement followed by 0..100 bytes, in one piece and
+// one byte at a time; the only acceptable outcome is an error.
+func endsEarly(c *vm.Ctx, r *vm.Rand) {
+	type tgt struct {
+		name string
+		run  func(rd io.Reader, network bool) error
+	}
+	nbtInto := func(mk func() any) func(io.Reader, bool) error {
+		return func(rd io.Reader, network bool) error {
+			d := nbt.NewDecoder(rd)
+			d.NetworkFormat(network)
+			_, err := d.Decode(mk())
+			return err
+		}
+	}
+	type holder struct {
+		V any `nbt:"v"`
+	}
+	type typedL struct {
+		V []int64 `nbt:"v"`
+	}
+	type typedU struct {
+		V []uint64 `nbt:"v"`
+	}
+	type typedI struct {
+		V []int32 `nbt:"v"`
+	}
+	type typedB struct {
+		V []byte `nbt:"v"`
+	}
+	type skip struct {
+		Other int32 `nbt:"other"`
+	}
+	targets := []tgt{
+		{"any", nbtInto(func() any { return new(any) })},
+		{"struct{any}", nbtInto(func() any { return new(holder) })},
+		{"struct{[]int64}", nbtInto(func() any { return new(typedL) })},
+		{"struct{[]uint64}", nbtInto(func() any { return new(typedU) })},
+		{"struct{[]int32}", nbtInto(func() any { return new(typedI) })},
+		{"struct{[]byte}", nbtInto(func() any { return new(typedB) })},
+		{"struct(unknown field skipped)", nbtInto(func() any { return new(skip) })},
+		{"RawMessage", nbtInto(func() any { return new(nbt.RawMessage) })},
+		{"StringifiedMessage", nbtInto(func() any { return new(nbt.StringifiedMessage) })},
+		{"dynbt.Value", nbtInto(func() any { return new(dynbt.Value) })},
+		{"pk.NBT(dynbt.Value)", func(rd io.Reader, _ bool) error { var v dynbt.Value; _, err := pk.NBT(&v).ReadFrom(rd); return err }},
+	}
+	be := func(n uint32) []byte { return []byte{byte(n >> 24), byte(n >> 16), byte(n >> 8), byte(n)} }
+	for _, count := range []uint32{1 << 27, 1 << 28, 1 << 29, 1<<29 + 1, 1 << 30, 1<<30 + 3, 1<<31 - 1} {
+		for _, tag := range []byte{refnbt.ByteArray, refnbt.IntArray, refnbt.LongArray} {
+			for _, extra := range []int{0, 1, 7, 8, 12, 16, 24, 100} {
+				for _, shape := range []string{"root", "member", "nested-member"} {
+					nested := shape == "nested-member"
+					for _, tg := range targets {
+						network := tg.name == "pk.NBT(dynbt.Value)" || r.Bool()
+						// the array itself as the document, or {v: array}, or {w: {v: array}}; the stream holds `extra` bytes of
+						// the payload and then, for the member shapes, the TAG_End bytes that would close the compounds - a reader
+						// that gets the payload size wrong finds a complete document there
+						var doc []byte
+						if shape == "root" {
+							doc = append(doc, tag)
+							if !network {
+								doc = append(doc, 0, 0)
+							}
+						} else {
+							doc = append(doc, refnbt.Compound)
+							if !network {
+								doc = append(doc, 0, 0)
+							}
+							if nested {
+								doc = append(doc, refnbt.Compound, 0, 1, 'w')
+							}
+							doc = append(doc, tag, 0, 1, 'v')
+						}
+						doc = append(doc, be(count)...)
+						doc = append(doc, r.Bytes(extra)...)
+						switch shape {
+						case "member":
+							doc = append(doc, 0)
+						case "nested-member":
+							doc = append(doc, 0, 0)
+						}
+						typedTarget := strings.HasPrefix(tg.name, "struct{")
+						if typedTarget && shape != "member" {
+							continue // the typed receivers expect v at the top of a compound
+						}
+						if tg.name == "struct(unknown field skipped)" && shape == "root" {
+							continue
+						}
+						for _, how := range []string{"contiguous", "byte-at-a-time", "ends-with-error"} {
+							wit := func() any {
+								return map[string]any{"target": tg.name, "array_tag": refnbt.TagName(tag), "announced_elements": count, "payload_bytes_present": extra, "shape": shape, "network": network, "delivery": how, "stream_hex": vm.Hex(doc)}
+							}
+							var rd io.Reader = bytes.NewReader(doc)
+							switch how {
+							case "byte-at-a-time":
+								rd = &inject.ChunkReader{B: doc, Plan: []int{1}}
+							case "ends-with-error":
+								rd = io.MultiReader(bytes.NewReader(doc), errReader{})
+							}
+							var err error
+							if c.Guard("ends-early/"+tg.name, wit, func() { err = tg.run(rd, network) }) {
+								continue
+							}
+							c.Eval(vm.HashStr("ends-early", tg.name, how, fmt.Sprint(count, tag, extra, shape, network)), true)
+							if err == nil {
+								c.Violation("ends-early/success/"+tg.name+"/"+refnbt.TagName(tag), fmt.Sprintf("%s: the stream ended %d bytes into an array announcing %d elements and the decode reported success", tg.name, extra, count), wit())
+								continue
+							}
+							c.Cover("ends-early.error." + tg.name)
+						}
+					}
+				}
+			}
+		}
+	}
+}
+
+type errReader struct{}
+
+func (errReader) Read([]byte) (int, error) { return 0, errors.New("injected read failure") }
+
 func run(c *vm.Ctx) {
+	if c.Shard == 2%c.NShards {
+		endsEarly(c, c.Rand("ends-early"))
+	}
 	if c.Shard == 1%c.NShards {
 		for _, rc := range bigCases(c.Rand("big")) {
 			checkRead(c, c.Rand("big-plans"), rc)
